@@ -335,3 +335,5 @@ _CHAIN_OLD = "        certificates = []\n        for _ in range(parser['certific
 N('benign.chain-count-checked-before-loop', [(P + 'ssh/key.py', _CHAIN_OLD, "        if not parser['certificate_count']:\n            raise InvalidValue(parser['certificate_count'], cls, 'certificate_count')\n" + _CHAIN_OLD),
                                                (P + 'ssh/key.py', "        if not certificates:\n            raise InvalidValue(parser['certificate_count'], cls, 'certificate_count')\n", "")])
 B('C02.chain-count-unchecked', ['C02'], [(P + 'ssh/key.py', "        if not certificates:\n            raise InvalidValue(parser['certificate_count'], cls, 'certificate_count')\n", "")], mention=['IndexError'])
+B('C19.scan-from-start-of-input', ['C19'], [(P + 'common/parse.py', "        for separator_end in range(item_offset, len(self._parsable) + 1):\n            for separator in byte_separators:\n                if self._parsable[item_offset:separator_end].endswith(separator):",
+                                              "        for separator_end in range(0, len(self._parsable) + 1):\n            for separator in byte_separators:\n                if separator_end >= item_offset and self._parsable[item_offset:separator_end].endswith(separator):")], mention=['C19.R3'])
